@@ -414,6 +414,29 @@ def run(ctx):
         # ------------------------------------------------- who may call delegates
         n_del = 0
         seen_pairs = set()
+        del_regions = {}
+        from ..region import Region
+
+        def roots_in(owner_f, g, node, depth=3):
+            """parameters of owner_f that `node` (inside g, a private helper of owner_f's region, or owner_f) depends on"""
+            got_ = param_roots(g, node)
+            if g is owner_f:
+                return got_
+            if depth <= 0:
+                return {"?"}
+            out_ = set()
+            for caller_, call_ in del_regions[owner_f.qual].callsites.get(g.qual, ()):
+                for p_ in got_:
+                    bound_ = None
+                    if p_ in g.params and g.params.index(p_) < len(call_.args):
+                        bound_ = call_.args[g.params.index(p_)]
+                    for k_ in call_.keywords:
+                        if k_.arg == p_:
+                            bound_ = k_.value
+                    if bound_ is None:
+                        continue  # default value of the helper's parameter: a constant, no root
+                    out_ |= roots_in(owner_f, caller_, bound_, depth - 1)
+            return out_
         for f in index.nontest_funcs():
             for helper in sorted(DELEGATES):
                 for node in graph.sites.get((f.qual, helper), []):
@@ -424,6 +447,19 @@ def run(ctx):
                     key = (f.qual, helper)
                     seen_pairs.add(key)
                     ent = DELEGATE_CALLERS.get(key)
+                    owner_f = f
+                    if ent is None:
+                        # the call was extracted into a private helper that only a listed caller uses: that entry
+                        # applies, with the helper's parameters traced back to the listed caller's
+                        for (oq, hq), ent_ in sorted(DELEGATE_CALLERS.items()):
+                            if hq != helper or oq not in index.funcs:
+                                continue
+                            if oq not in del_regions:
+                                del_regions[oq] = Region(index, graph, index.funcs[oq])
+                            if f in del_regions[oq].funcs[1:]:
+                                ent, owner_f, key = ent_, index.funcs[oq], (oq, hq)
+                                seen_pairs.add(key)
+                                break
                     if ent is None:
                         ctx.ob(
                             "C17.exec",
@@ -441,7 +477,7 @@ def run(ctx):
                         # re-run on the original nodes so that lambda scoping is visible
                         got = set()
                         for a in list(call.args) + [k.value for k in call.keywords if k.arg not in ("extra_symbols", "none_when_no_spec")]:
-                            got |= param_roots(f, a)
+                            got |= roots_in(owner_f, f, a)
                     shape_ok = call is not None and got <= roots and bool(got)
                     if not shape_ok:
                         ctx.ob(
@@ -555,6 +591,33 @@ def run(ctx):
                 roots = param_roots(f, p)
                 allowed = OUTPUT_PARAMS.get(q)
                 if allowed is None:
+                    # a private helper of a designated writer: the path must be exactly one of the helper's parameters,
+                    # bound at every call site to exactly the writer's output parameter
+                    from ..region import Region
+
+                    via = None
+                    ex_h = exact_param(index, f, p)
+                    for wq, wallowed in OUTPUT_PARAMS.items():
+                        g = index.funcs.get(wq)
+                        if g is None or ex_h is None or ex_h not in f.params:
+                            continue
+                        reg = Region(index, graph, g)
+                        if f not in reg.funcs[1:]:
+                            continue
+                        pos = f.params.index(ex_h)
+                        good = True
+                        for caller, cs in reg.callsites.get(f.qual, ()):
+                            a = cs.args[pos] if pos < len(cs.args) else next((k.value for k in cs.keywords if k.arg == ex_h), None)
+                            exc = exact_param(index, caller, a) if a is not None else None
+                            callowed = OUTPUT_PARAMS.get(caller.qual, wallowed if caller is g else set())
+                            if exc is None or exc not in callowed:
+                                good = False
+                        if good and reg.callsites.get(f.qual):
+                            via = wq
+                            break
+                    if via is not None:
+                        ctx.ob("C17.write", f, call, True, "private helper of the designated writer {}".format(via))
+                        continue
                     ctx.ob(
                         "C17.write",
                         f,
